@@ -27,6 +27,7 @@ import (
 	"github.com/emersion/go-sasl"
 	"github.com/foxcpp/maddy/framework/config"
 	modconfig "github.com/foxcpp/maddy/framework/config/module"
+	"github.com/foxcpp/maddy/framework/exterrors"
 	"github.com/foxcpp/maddy/framework/log"
 	"github.com/foxcpp/maddy/framework/module"
 	"github.com/foxcpp/maddy/internal/auth/sasllogin"
@@ -36,7 +37,21 @@ import (
 var (
 	ErrUnsupportedMech = errors.New("Unsupported SASL mechanism")
 	ErrInvalidAuthCred = errors.New("auth: invalid credentials")
+	// ErrTemporaryFailure is returned by SASL servers instead of
+	// ErrInvalidAuthCred if the credentials could not be checked
+	// (exterrors.IsTemporary is true for it).
+	ErrTemporaryFailure = exterrors.WithTemporary(errors.New("auth: temporary failure"), true)
 )
+
+// saslFailure converts the AuthPlain error into the error reported by the SASL
+// server: details are logged and not disclosed to the client, but it is told
+// whether it makes sense to try the same credentials again.
+func saslFailure(err error) error {
+	if exterrors.IsTemporary(err) {
+		return ErrTemporaryFailure
+	}
+	return ErrInvalidAuthCred
+}
 
 // SASLAuth is a wrapper that initializes sasl.Server using authenticators that
 // call maddy module objects.
@@ -146,7 +161,7 @@ func (s *SASLAuth) CreateSASL(mech string, remoteAddr net.Addr, successCb func(i
 			err := s.AuthPlain(username, password)
 			if err != nil {
 				s.Log.Error("authentication failed", err, "username", username, "src_ip", remoteAddr)
-				return ErrInvalidAuthCred
+				return saslFailure(err)
 			}
 
 			return successCb(identity, ContextData{
@@ -164,7 +179,7 @@ func (s *SASLAuth) CreateSASL(mech string, remoteAddr net.Addr, successCb func(i
 			err := s.AuthPlain(username, password)
 			if err != nil {
 				s.Log.Error("authentication failed", err, "username", username, "src_ip", remoteAddr)
-				return ErrInvalidAuthCred
+				return saslFailure(err)
 			}
 
 			return successCb(username, ContextData{
